@@ -120,3 +120,20 @@ def t12_view(mem, off, end, a, b):
     if s + n > end:
         return NO_NDEF
     return mem[s:s + n]
+
+
+def ctl_tlv_start(v):
+    """first octet address named by a lock / memory control TLV value (T1T/T2T: PageAddr * 2**BytesPerPage +
+    ByteOffset, BytesPerPage being the LOW nibble of the third octet)"""
+    return (v[0] // 16) * (2 ** (v[2] % 16)) + v[0] % 16
+
+
+def lock_tlv_size(v):
+    """number of lock octets: the size octet counts lock BITS (0 means 256), rounded up to whole octets"""
+    bits = v[1] if v[1] > 0 else 256
+    return (bits + 7) // 8
+
+
+def rsvd_tlv_size(v):
+    """number of reserved octets (0 means 256)"""
+    return v[1] if v[1] > 0 else 256
